@@ -31,6 +31,11 @@ CHECKS = {
          "Every opcode and operand form over a 20-value alphabet (squared for binary ops) with six different seed gradients per operand, in slices of every length 1..=9, and every DAG up to the node bound over 20 differentiable ops with all nodes exported, are evaluated by the VM and JIT gradient evaluators; each node's gradient must equal the f64 dual-number rule applied to the evaluator's own operand gradients (cancellation-aware tolerance), its value must equal the float-slice evaluator's, the symbolic derivative from Context::deriv must evaluate to the evaluator's partials, and the Shape transform path (7 matrices incl. projective) is checked against f64 duals.",
          "Trusted: dual64 rules and the 1e-3 locus-exclusion rule (skips are counted); rand/mix taken as locally constant; x86_64 JIT only.",
          "DESIGN.md §4 C05"),
+ "C10": ("model_checking",
+         "exhaustive enumeration of use histories over real long-lived evaluators / storage pools / workspace, differential oracle against fresh objects",
+         "Every sequence of up to 2-3 (quick) / 3-4 (thorough) uses from a 70-use alphabet (4 evaluator kinds x 7 differently shaped functions x 2 inputs with different sample counts, plus simplify-evaluate-recycle) is run through one evaluator per kind, one stack of recycled tape storage (JIT mappings larger and smaller than the next code), one stack of recycled function storage and one workspace, on VM<255>, VM<3> and JIT; every step's outputs, trace and simplified tape must equal bit-for-bit the same call on fresh objects; all RenderHandle simplify/recycle sequences over three traces (cache hit and miss) up to depth 3/4.",
+         "Trusted: the observation function (bit patterns of outputs, traces, child size / choice count / tape hash); no state de-duplication is attempted.",
+         "DESIGN.md §4 C10"),
  "C11": ("model_checking",
          "bounded-exhaustive enumeration of programs x finite inputs on all evaluator kinds of both backends, crash journal for aborts/faults",
          "Every opcode/operand form on all finite special-value points and finite-endpoint boxes, every composition op2(op1(..),..) / op2(p1(..),p2(..)) / op3(op2(p1,p2)) of overflow-or-invalid producers with all 30 opcodes (register and immediate forms) on 12^3 grids of points and boxes reaching +-f32::MAX, the Shape API with extreme and projective matrices, and malformed argument lists, are executed on VM and JIT point / interval / float-slice / grad-slice evaluators; any panic, abort, fault, malformed returned interval or non-error on malformed arguments is a violation, attributed to the operation that creates it.",
